@@ -1065,6 +1065,14 @@ def _pre_run(ck, src, route, sel, via_data, hist, base):
     der = _derived(src, sub, idn)
     fired = _check_derived(ck, src, sub, idn, der, inputs, sel["kind"], base, suffix)
     fired |= _check_fresh(ck, src, sub, der, inputs, base, suffix)
+    if name == "none":
+        fired.add(("face_order", tuple(idn["face_ids"])))
+    elif base is not None:
+        order0 = [k[1] for k in base if isinstance(k, tuple) and k[0] == "face_order"]
+        ck.cases += 1
+        if order0 and list(order0[0]) != idn["face_ids"]:
+            ck.fail("history_dependence:face_order" + suffix, "the faces of the slice come in another order than without pre-materialisation",
+                    "the selection does not depend on which derived quantities were computed before", inputs, idn["face_ids"], list(order0[0]))
     return fired
 
 
@@ -1123,15 +1131,17 @@ def subsets(tier, seed):
         closed = [m for m in meshes if m["closed"]]
         rand = [m for m in meshes if m["name"].startswith("rand_")]
         rng.shuffle(small)
-        meshes = small[:6] + closed[:2] + [closed[2 + seed % (len(closed) - 2)]] + rand[:4]
+        # (5 small ones since the pre-materialisation scenario runs first: the two JIT compilations of ~8 s each leave ~12 s)
+        meshes = small[:5] + closed[:2] + [closed[2 + seed % (len(closed) - 2)]] + rand[:4]
     else:
         rand = [m for m in meshes if m["name"].startswith("rand_")]
         meshes = [m for m in meshes if not m["name"].startswith("rand_")] + rand[:30]
     samples = []
     hist_names = [h for h in HISTORIES if h != "none" and (h != "bounds" or _READY["jit"])]
     done = 0
+    limit = 31 if tier == "quick" else 530          # seconds since the start of the function (includes ~17 s of JIT compilation)
     for mi, m in enumerate(meshes):
-        if time.time() - t0 > (36 if tier == "quick" else 530):
+        if time.time() - t0 > limit:
             break                       # safety net only; the mesh counts are chosen to stay below it
         done += 1
         src = Source(m)
@@ -1148,14 +1158,16 @@ def subsets(tier, seed):
                 keep.append(s)
             sels = keep[:18]
         for si, sel in enumerate(sels):
+            if time.time() - t0 > limit:
+                break
             check_data = (tier == "thorough" and si % 2 == 0) or (si % 4 == mi % 4)
             base = _run_selection(ck, src, sel, "none", check_data, rng, tier)
             if len(samples) < 3 and base is not None:
                 samples.append({"mesh": m["name"], "call": sel["kind"], "args": sel["args"]})
             # histories: a few selections per mesh
-            if base is not None and (si < 2 or tier == "thorough" and si % 10 == 0):
-                # (quick: 2 random histories + 'all'; every single attribute is covered systematically by _prematerialised)
-                hs = hist_names if tier == "thorough" else rng.sample(hist_names, 2) + ["all"]
+            if base is not None and (si < (2 if tier == "thorough" else 1) or tier == "thorough" and si % 10 == 0):
+                # (quick: 1 random history + 'all'; every single attribute is covered systematically by _prematerialised)
+                hs = hist_names if tier == "thorough" else rng.sample(hist_names, 1) + ["all"]
                 for h in dict.fromkeys(hs):
                     sig = _run_selection(ck, src, sel, h, False, rng, tier, base_keys=base["_fired"])
                     if sig is None:
@@ -1187,7 +1199,7 @@ def subsets(tier, seed):
              "(unsorted list, ndarray, scalar, numpy scalar, single element, all, reversed), random boxes (regular + antimeridian), "
              "circles, k-nearest for nodes / face centres / edge centres, constant latitudes (node latitudes, between, random); "
              "face/node/edge data of rank 1..3(4) incl. grid dimension first and a coordinate on the grid dimension; "
-             f"{len(hist_names)} pre-materialisation histories on 2 selections per mesh; subset of subset; shipped edge table; "
+             f"{len(hist_names)} pre-materialisation histories on 2 selections per mesh (quick: 1 random history + 'all' on 1 selection per mesh); subset of subset; shipped edge table; "
              f"pre-materialised sources: {n_pre} slices of {n_pre_meshes} fixed mesh(es) (3x3 lattice of quads + triangles"
              + (", antimeridian quads, small + closed meshes" if tier == "thorough" else "") + ") with every derived attribute read "
              "alone / all together / incidence tables shipped with the source before Grid.isel, subset.*, cross_section, "
